@@ -63,6 +63,7 @@ type profSpec struct {
 	rec       *agd.Profile
 	filtering bool
 	autoDevs  bool
+	mode      dnsmsg.BlockingMode
 }
 
 var (
@@ -134,6 +135,9 @@ func buildUniverse(t *kernel.Tape) (u *universe) {
 			iplog:     t.Chance(1, 2, "iplog"),
 			filtering: true,
 			autoDevs:  t.Chance(1, 2, "auto-devices"),
+			mode: kernel.Pick(t, []dnsmsg.BlockingMode{
+				&dnsmsg.BlockingModeNullIP{}, &dnsmsg.BlockingModeNullIP{}, &dnsmsg.BlockingModeNXDOMAIN{}, &dnsmsg.BlockingModeREFUSED{},
+			}, "blocking-mode"),
 		}
 		if t.Chance(1, 2, "prof-access") {
 			p.access = &access.ProfileConfig{}
@@ -202,7 +206,7 @@ func buildUniverse(t *kernel.Tape) (u *universe) {
 				SafeBrowsing: &filter.ConfigSafeBrowsing{},
 			},
 			Access:              acc,
-			BlockingMode:        &dnsmsg.BlockingModeNullIP{},
+			BlockingMode:        p.mode,
 			Ratelimiter:         agd.GlobalRatelimiter{},
 			ID:                  p.id,
 			FilteredResponseTTL: 10 * time.Second,
@@ -325,6 +329,16 @@ func (up *upstream) ServeDNS(ctx context.Context, rw dnsserver.ResponseWriter, r
 
 	resp := (&dns.Msg{}).SetReply(req)
 	resp.RecursionAvailable = true
+	switch {
+	case strings.Contains(name, "-nx-"):
+		resp.Rcode = dns.RcodeNameError
+
+		return rw.WriteMsg(ctx, req, resp)
+	case strings.Contains(name, "-sf-"):
+		resp.Rcode = dns.RcodeServerFailure
+
+		return rw.WriteMsg(ctx, req, resp)
+	}
 	if req.Question[0].Qtype == dns.TypeA {
 		resp.Answer = append(resp.Answer, &dns.A{
 			Hdr: dns.RR_Header{Name: req.Question[0].Name, Rrtype: dns.TypeA, Class: dns.ClassINET, Ttl: 300},
@@ -815,6 +829,9 @@ func genRequest(t *kernel.Tape, u *universe, servers map[string]*agd.Server, kin
 	// Names: unique per request, with a behaviour prefix or an access-rule
 	// suffix.
 	base := fmt.Sprintf("n%d", i)
+	// What the upstream says about the name: it exists, does not exist, or
+	// cannot be resolved.
+	base = kernel.Pick(t, []string{"", "", "", "nx-", "sf-"}, "upstream-rcode") + base
 	switch t.Choose(10, "name-kind") {
 	case 0:
 		r.name, r.behaviour = "reqblock-"+base+".example.", "reqblock"
